@@ -498,7 +498,9 @@ impl Report {
                     harness_problems.push(Json::s(format!("{}: required entry point {} observed 0 times", s.name, r)));
                 }
             }
-            if s.distinct_count() < s.floor {
+            // violated cases are explored cases too: they count towards the floor, so that a
+            // defect breaking most cases is reported as a violation (exit 1), not as a thin run
+            if s.distinct_count() + s.violations_total < s.floor {
                 harness_problems.push(Json::s(format!(
                     "{}: only {} distinct non-trivial conclusive cases, floor is {}",
                     s.name,
@@ -544,17 +546,16 @@ impl Report {
                 s.violations_total
             );
         }
-        if !harness_problems.is_empty() {
-            for h in &harness_problems {
-                eprintln!("HARNESS-PROBLEM {}", h.to_string());
-            }
-            return 2;
+        for h in &harness_problems {
+            eprintln!("HARNESS-PROBLEM {}", h.to_string());
         }
         if total_viol > 0 {
-            1
-        } else {
-            0
+            return 1;
         }
+        if !harness_problems.is_empty() {
+            return 2;
+        }
+        0
     }
 }
 
